@@ -155,6 +155,11 @@ def run(ctx):
         with open(ctx.path("driver_%s.log" % name), "w") as fh:
             fh.write(out)
         if rc != 0 or "--- PASS" not in out:
+            zp = vk.zoekt_panic(out)
+            if zp:
+                # the real code panicked on an index that the real indexer built from the script's history
+                ctx.violation("C13:panic:%s" % zp[1], {"driver": name, "panic": zp[0], "output": out[out.find("panic: "):][:2500]})
+                continue
             raise vk.Inconclusive("driver %s failed:\n%s" % (name, out[-3000:]))
         ctx.log("driver %s done" % name)
         events = vk.read_ndjson(trace)
@@ -207,7 +212,7 @@ def run(ctx):
         raise vk.Inconclusive("the code's shard structure / fallback decision differs from DeltaOps in %d runs although "
                               "every per-branch view is right (model out of date?): %s" % (
                                   len(conform), json.dumps(conform[0])[:2500]))
-    if len(nontrivial) < 20:
+    if len(nontrivial) < 20 and not ctx.violations:
         raise vk.Inconclusive("vacuous: only %d distinct delta runs that tombstoned something" % len(nontrivial))
     ctx.assumptions += [
         "git CLI (2.39) builds the repositories; its ls-tree output is the source of the heads in the trace",
